@@ -146,7 +146,7 @@ func (p *parser) advance() bool {
 func (p *parser) advanceOnLine() {
 	for {
 		char := p.next()
-		if char != ' ' {
+		if char != ' ' && char != '\t' {
 			p.backup()
 			return
 		}
